@@ -51,7 +51,7 @@ RECURSIVE SumTo(_, _)
 SumTo(f, j) == IF j = 0 THEN 0 ELSE f[j] + SumTo(f, j - 1)
 \* entry j of the file is handed out Copies(k, w)[j] times per pass, copies adjacent, file order
 Copies(k, w) == IF k \in ScnKinds /\ Len(w) > 1
-                THEN [j \in 1..Len(w) |-> w[j] \div GCDSeq(w)]
+                THEN LET g == GCDSeq(w) IN [j \in 1..Len(w) |-> w[j] \div g]
                 ELSE [j \in 1..Len(w) |-> 1]
 Ring(k, w)   == Cat([j \in 1..Len(w) |-> Rep(j, Copies(k, w)[j])], Len(w))
 RingLen(k, w) == LET cp == Copies(k, w) IN SumTo(cp, Len(w))
@@ -69,12 +69,15 @@ Cap(c)      == (IF Bounded(c) THEN Expected(c) ELSE 0) + 2 * Entries(c) + 3
 Stop(c)     == IF c.cut > 0 THEN c.cut ELSE Cap(c)
 \* how many times entry j is among the first n deliveries (cyclic file / ring order): every full round hands out
 \* Copies[j]; in the last, partial round entry j occupies ring positions Before(j)+1 .. Before(j)+Copies[j]
-Hist(c, n)  == LET cp == Copies(c.kind, c.w)
-                   L  == SumTo(cp, Len(c.w))
+RECURSIVE Prefix(_, _)      \* <<0, f[1], f[1]+f[2], ...>>, length j + 1
+Prefix(f, j) == IF j = 0 THEN <<0>> ELSE LET p == Prefix(f, j - 1) IN Append(p, p[j] + f[j])
+Hist(c, n)  == LET cp  == Copies(c.kind, c.w)
+                   N   == Len(c.w)
+                   pre == Prefix(cp, N)          \* pre[j] = ring positions before entry j
+                   L   == pre[N + 1]
                    rem == n % L
-                   part(j) == LET b == SumTo(cp, j - 1) IN
-                              IF rem <= b THEN 0 ELSE IF rem - b >= cp[j] THEN cp[j] ELSE rem - b
-               IN [j \in 1..Len(c.w) |-> (n \div L) * cp[j] + part(j)]
+                   part(j) == IF rem <= pre[j] THEN 0 ELSE IF rem - pre[j] >= cp[j] THEN cp[j] ELSE rem - pre[j]
+               IN [j \in 1..N |-> (n \div L) * cp[j] + part(j)]
 \* (the same, by counting over the explicit ring: used to cross-check Hist on the small matrix)
 HistByRing(c, n) == LET r == Ring(c.kind, c.w) IN
                [j \in 1..Len(c.w) |-> Cardinality({i \in 0..(n - 1) : r[(i % Len(r)) + 1] = j})]
